@@ -23,7 +23,7 @@ def import_from(root: Path):
             conf.update({d["mutant"]: d for d in json.loads(cf.read_text()) if d})
         if not conf:
             continue
-        for k in range(1, 25):
+        for k in range(1, 28):
             mid = f"{wt.name}-m{k}"
             d = conf.get(mid)
             diff = wt / "mutants" / f"m{k}.diff"
@@ -43,7 +43,7 @@ def import_from(root: Path):
             meta = {
                 "id": mid,
                 "property": wt.name,
-                "source": "independent sub-agent given only the property text and a scratch worktree" + (" (round 2: asked for changes different in kind and place from m1-m3)" if 3 < k <= 6 else " (round 3, after the normalisation pre-pass was added: different from m1-m6)" if 6 < k <= 9 else " (round 4, held out after the rules were strengthened on round 3: different from m1-m9)" if 9 < k <= 12 else " (round 5, held out after the rules were strengthened on round 4: different from m1-m12)" if 12 < k <= 15 else " (round 6, held out after the rules were strengthened on round 5: different from m1-m15)" if 15 < k <= 18 else " (round 7, held out after the rules were strengthened on round 6: different from m1-m18)" if 18 < k <= 21 else " (round 8, held out after the rules were strengthened on round 7: different from m1-m21)" if k > 21 else ""),
+                "source": "independent sub-agent given only the property text and a scratch worktree" + (" (round 2: asked for changes different in kind and place from m1-m3)" if 3 < k <= 6 else " (round 3, after the normalisation pre-pass was added: different from m1-m6)" if 6 < k <= 9 else " (round 4, held out after the rules were strengthened on round 3: different from m1-m9)" if 9 < k <= 12 else " (round 5, held out after the rules were strengthened on round 4: different from m1-m12)" if 12 < k <= 15 else " (round 6, held out after the rules were strengthened on round 5: different from m1-m15)" if 15 < k <= 18 else " (round 7, held out after the rules were strengthened on round 6: different from m1-m18)" if 18 < k <= 21 else " (round 8, held out after the rules were strengthened on round 7: different from m1-m21)" if 21 < k <= 24 else " (round 9, held out after the rules were strengthened on round 8: different from m1-m24)" if k > 24 else ""),
                 "description_and_what_it_needs_to_manifest": desc.strip(),
                 "confirmed": {
                     "how": "in the scratch worktree: demo on clean sources, git apply patch.diff, the 39 baseline tests, demo on the changed sources, restore",
